@@ -30,6 +30,12 @@ ASSUMPTIONS = ["lmfit's optimiser is symmetric under a global sign flip of "
                "data, amplitudes and amplitude bounds"]
 
 MUTANTS = [
+    ("polarity filter tests the integrated flux",
+     "AegeanTools/source_finder.py",
+     "                    if (src.peak_flux > 0 and nopositive) or (\n"
+     "                        src.peak_flux < 0 and nonegative\n",
+     "                    if (src.int_flux > 0 and nopositive) or (\n"
+     "                        src.int_flux < 0 and nonegative\n", "C13-R1"),
     ("image loader memoised by path", "AegeanTools/fits_tools.py",
      "def load_image_band(filename,",
      "@lru_cache(maxsize=8)\ndef load_image_band(filename,", "C13-R9"),
@@ -151,7 +157,8 @@ def run(ctx):
             t_ = ast.fix_missing_locations(_R().visit(
                 _copy.deepcopy(s_.test)))
             if {"nopositive", "nonegative"} & names_in(t_) and any(
-                    isinstance(x, ast.Attribute) and x.attr == "peak_flux"
+                    isinstance(x, ast.Attribute) and
+                    isinstance(x.value, ast.Name)
                     for x in ast.walk(t_)):
                 filt.append((s_, t_))
     # ... or a comprehension  `x for x in srcs if <keep>`  whose result is
@@ -165,7 +172,8 @@ def run(ctx):
                 op=ast.And(), values=list(cond))
             t_ = ast.fix_missing_locations(_R().visit(_copy.deepcopy(cond)))
             if {"nopositive", "nonegative"} & names_in(t_) and any(
-                    isinstance(x, ast.Attribute) and x.attr == "peak_flux"
+                    isinstance(x, ast.Attribute) and
+                    isinstance(x.value, ast.Name)
                     for x in ast.walk(t_)):
                 comps.append((c_, t_))
     if len(filt) + len(comps) != 1:
@@ -189,11 +197,21 @@ def run(ctx):
         ftest_src = ast.Tuple(elts=list(f.generators[0].ifs), ctx=ast.Load())
         test_means_drop = False
     drops = True
-    fluxname = sorted({norm(x) for x in ast.walk(ftest)
-                       if isinstance(x, ast.Attribute) and
-                       x.attr == "peak_flux"})
+    tested = sorted({norm(x) for x in ast.walk(ftest)
+                     if isinstance(x, ast.Attribute) and
+                     isinstance(x.value, ast.Name) and
+                     x.value.id not in ("self", "np", "numpy")})
+    fluxname = [t for t in tested if t.endswith(".peak_flux")]
+    ctx.check("C13-R1", dr, "polarity decided by the peak flux (tests %s)" %
+              tested, len(fluxname) == 1 and len(tested) == 1,
+              "the sign of a source is the sign of its peak_flux (the "
+              "quantity the island / component was detected and fitted "
+              "with); the filter tests %s: for an island row the "
+              "integrated flux is a sum over pixels of both signs and can "
+              "have the opposite sign to its peak" % tested,
+              node=filt[0][0] if filt else comps[0][0])
     if len(fluxname) != 1:
-        raise AnalysisError("C13-R1: filter does not test peak_flux")
+        return
     bad = []
     for flux in (-1.0, 0.0, 1.0):
         for nop in (False, True):
